@@ -321,3 +321,43 @@ package main
 //@   props C07 C09 C10
 //@ func CreateRoundRobinBackend
 //@   props C19
+
+// ---- static routes (C18) ----
+
+//@ func (*PreConfigRoute).toRegularExp
+//@   props C18
+//@   modifies nothing
+//@   ensures result == globRe(s)
+
+//@ func NewPreRouteItem
+//@   props C18
+//@   ensures noport: !contains(nextHop, ":") ==> err == nil && result != nil && result.host == nextHop && result.protocol == protocol && result.dest == dest
+//@   ensures noport-default: !contains(nextHop, ":") && lower(protocol) != lower("tls") ==> result.port == 5060
+//@   ensures noport-tls: !contains(nextHop, ":") && lower(protocol) == lower("tls") ==> result.port == 5061
+//@   ensures withport: contains(nextHop, ":") && atoiOk(nextHop[lastIndexOf(nextHop, ":")+1:]) ==> err == nil && result != nil && result.host == nextHop[:lastIndexOf(nextHop, ":")] && result.port == atoiVal(nextHop[lastIndexOf(nextHop, ":")+1:]) && result.protocol == protocol && result.dest == dest
+//@   ensures badport: contains(nextHop, ":") && !atoiOk(nextHop[lastIndexOf(nextHop, ":")+1:]) ==> err != nil
+
+//@ func (*PreConfigRoute).AddRouteItem
+//@   props C18
+//@   modifies mapof(pcr.items)
+//@   ensures err == nil ==> has(pcr.items, dest) && pcr.items[dest] != nil && pcr.items[dest].dest == dest
+//@   ensures err != nil ==> has(pcr.items, dest) == old(has(pcr.items, dest)) && pcr.items[dest] == old(pcr.items[dest])
+//@   ensures forall k string :: k != dest ==> has(pcr.items, k) == old(has(pcr.items, k)) && pcr.items[k] == old(pcr.items[k])
+
+//@ func (*PreConfigRoute).FindRoute
+//@   props C18
+//@   requires wf: forall k string :: has(pcr.items, k) ==> pcr.items[k] != nil && pcr.items[k].dest == k
+//@   modifies nothing
+//@   ensures exact: has(pcr.items, dest) ==> err == nil && protocol == pcr.items[dest].protocol && host == pcr.items[dest].host && port == pcr.items[dest].port
+//@   ensures wildcard: !has(pcr.items, dest) && (exists k string :: has(pcr.items, k) && routeMatch(k, dest)) ==>
+//@        err == nil && (exists k string :: has(pcr.items, k) && routeMatch(k, dest) && protocol == pcr.items[k].protocol && host == pcr.items[k].host && port == pcr.items[k].port)
+//@   ensures default: !has(pcr.items, dest) && (forall k string :: has(pcr.items, k) ==> !routeMatch(k, dest)) && has(pcr.items, "default") ==>
+//@        err == nil && protocol == pcr.items["default"].protocol && host == pcr.items["default"].host && port == pcr.items["default"].port
+//@   ensures none: !has(pcr.items, dest) && (forall k string :: has(pcr.items, k) ==> !routeMatch(k, dest)) && !has(pcr.items, "default") ==> err != nil
+//@   ensures deterministic: !has(pcr.items, dest) && (exists k string :: has(pcr.items, k) && routeMatch(k, dest)) ==>
+//@        (exists k string :: has(pcr.items, k) && routeMatch(k, dest) && protocol == pcr.items[k].protocol && host == pcr.items[k].host && port == pcr.items[k].port
+//@             && (forall k2 string :: has(pcr.items, k2) && routeMatch(k2, dest) ==> k <= k2))
+//@   loop 0:
+//@     invariant matchedItem == nil ==> (forall k string :: $visited[k] ==> !routeMatch(k, dest))
+//@     invariant matchedItem != nil ==> has(pcr.items, matchedItem.dest) && pcr.items[matchedItem.dest] == matchedItem && routeMatch(matchedItem.dest, dest)
+//@     invariant matchedItem != nil ==> (forall k string :: $visited[k] && routeMatch(k, dest) ==> matchedItem.dest <= k)
